@@ -64,7 +64,7 @@ var scales = []struct {
 	{"2", func(*Rand) *big.Int { return big.NewInt(2) }},
 	{"19", func(*Rand) *big.Int { return big.NewInt(19) }},
 	{"i", func(*Rand) *big.Int { return ref.SqrtM1 }},
-	{"(p+1)/2", func(*Rand) *big.Int { return ref.FInv(big.NewInt(2)) }},
+	{"1/2", func(*Rand) *big.Int { return ref.FInv(big.NewInt(2)) }},
 	{"uniform", func(r *Rand) *big.Int {
 		for {
 			x := r.BigBelow(ref.P)
